@@ -170,7 +170,7 @@ impl Runner {
             let foreign = match a { Some(x) => !self.own.iter().any(|(lo, hi)| x >= *lo && x < *hi), None => false };
             if foreign && (asleep == 0 || a == last) { asleep += 1 } else if foreign { asleep = 1 } else { asleep = 0 }
             last = a;
-            if asleep >= NEED_SLEEPING || t0.elapsed() > Duration::from_millis(1500) {
+            if asleep >= NEED_SLEEPING || t0.elapsed() > Duration::from_millis(5000) {
                 return match self.s.state(id) {
                     TState::AtSite(x) => Some(StepOutcome::Reached(x)),
                     TState::Finished => Some(StepOutcome::Finished),
@@ -284,14 +284,14 @@ fn run_case(progs: &[Vec<Op>], sched: &[usize]) -> Observed {
 fn case_term(progs: &[Vec<Op>], o: &Observed) -> String {
     let ps: Vec<String> = progs.iter().map(|p| clist(&p.iter().map(op_term).collect::<Vec<_>>())).collect();
     let st: Vec<String> = o.steps.iter().map(|s| {
-        let wk: Vec<String> = s.woke.iter().map(|(u, x)| format!("({},{})", u, x)).collect();
-        let oc: Vec<String> = s.occ.iter().map(|(k, w, r)| format!("({},{},{})", k, w, r)).collect();
-        format!("({},{},{},{})", s.t, s.out, clist(&wk), clist(&oc))
+        let wk: Vec<String> = s.woke.iter().map(|(u, x)| format!("Wk {} {}", u, x)).collect();
+        let oc: Vec<String> = s.occ.iter().map(|(k, w, r)| format!("Oc {} {} {}", k, w, r)).collect();
+        format!("SO {} {} {} {}", s.t, s.out, clist(&wk), clist(&oc))
     }).collect();
     let f = match &o.fin {
         Fin::Trunc => "FTrunc".to_string(),
         Fin::Complete { acq, cont, tacq, blocked } => {
-            let b: Vec<String> = blocked.iter().map(|(u, k, w)| format!("({},{},{})", u, k, cbool(*w))).collect();
+            let b: Vec<String> = blocked.iter().map(|(u, k, w)| format!("Bl {} {} {}", u, k, cbool(*w))).collect();
             format!("(FComplete {} {} {} {})", acq, cont, tacq, clist(&b))
         }
     };
@@ -313,51 +313,54 @@ fn unjustified_block(o: &Observed) -> bool {
     }
     false
 }
-/// site-level signature of a stale cleanup: a thread parked at 204 for page k is resumed after
-/// another thread went through 204 for k and an acquisition of k started after that
+/// Site-level signature of a stale cleanup (used to label failures found by `search`):
+/// a thread T parked at 204 for page k resumes (runs its cleanup) after another thread has left
+/// 204 for k while T was parked (that cleanup removed the shared entry) and after that an
+/// acquisition of k went through get_or_create (site 201: a fresh entry is in the map).
 fn stale204(progs: &[Vec<Op>], o: &Observed) -> bool {
     let n = progs.len();
-    // page of the acquisition / release each thread is in, tracked from its program and sites
+    let mut ip = vec![0usize; n];
     let mut held: Vec<Vec<i64>> = vec![vec![]; n];
-    let mut pcix = vec![0usize; n];      // next op index
-    let mut curpage = vec![-1i64; n];    // page of the call in progress
-    let mut parked204: Vec<Option<(i64, u8)>> = vec![None; n]; // (page, phase) phase 0: waiting for other's 204, 1: waiting for a 201, 2: armed
+    let mut cur_acq = vec![-1i64; n];
+    let mut rel_page = vec![-1i64; n];
+    let mut site = vec![0i64; n];
+    // for a thread parked at 204: (page, somebody else's cleanup ran since, a 201 for the page after that)
+    let mut parked: Vec<Option<(i64, bool, bool)>> = vec![None; n];
     let mut hit = false;
+    let siteless = |op: &Op, nheld: usize| match op { Op::Rel(i) => *i >= nheld, Op::TAcq(..) | Op::TRel(..) => true, Op::Acq(..) => false };
     for s in &o.steps {
-        let mut events = vec![(s.t, s.out)];
-        for (u, x) in &s.woke { events.push((*u, *x)); }
-        for (t, out) in events {
-            if t >= n { continue; }
-            if parked204[t].map(|p| p.1 == 2).unwrap_or(false) && out != 3 { hit = true; }
-            if out != 3 && out != 2 { if parked204[t].is_some() && out != 204 { parked204[t] = None; } }
-            match out {
+        let t = s.t;
+        if t < n && s.out != 3 {
+            // thread t left its site
+            if site[t] == 204 {
+                if let Some((k, _, armed)) = parked[t] {
+                    if armed { hit = true; }
+                    for u in 0..n { if u != t { if let Some((k2, _, a2)) = parked[u] { if k2 == k { parked[u] = Some((k2, true, a2)); } } } }
+                }
+                parked[t] = None;
+            }
+            site[t] = 0;
+        }
+        let mut arrivals: Vec<(usize, i64)> = vec![];
+        if t < n && s.out != 3 && s.out != 2 && s.out != 1 { arrivals.push((t, s.out)); }
+        for (u, x) in &s.woke { if *u < n { arrivals.push((*u, *x)); } }
+        for (t, x) in arrivals {
+            site[t] = x;
+            match x {
                 201 => {
-                    // find the acquisition that started: advance program past non-acquire ops
-                    while pcix[t] < progs[t].len() {
-                        match progs[t][pcix[t]] {
-                            Op::Acq(_, k) => { curpage[t] = k; pcix[t] += 1; break; }
-                            Op::Rel(i) => { if i < held[t].len() { held[t].remove(i); } pcix[t] += 1; }
-                            _ => { pcix[t] += 1; }
-                        }
-                    }
-                    for u in 0..n { if u != t { if let Some((k, ph)) = parked204[u] { if k == curpage[t] && ph == 1 { parked204[u] = Some((k, 2)); } } } }
+                    while ip[t] < progs[t].len() && siteless(&progs[t][ip[t]], held[t].len()) { ip[t] += 1; }
+                    if let Some(Op::Acq(_, k)) = progs[t].get(ip[t]) { cur_acq[t] = *k; ip[t] += 1; }
+                    for u in 0..n { if u != t { if let Some((k2, true, _)) = parked[u] { if k2 == cur_acq[t] { parked[u] = Some((k2, true, true)); } } } }
                 }
-                210 => { held[t].push(curpage[t]); }
+                210 => { held[t].push(cur_acq[t]); }
                 203 => {
-                    // a release started
-                    while pcix[t] < progs[t].len() {
-                        match progs[t][pcix[t]] {
-                            Op::Rel(i) => { pcix[t] += 1; if i < held[t].len() { curpage[t] = held[t].remove(i); break; } }
-                            Op::Acq(..) => break,
-                            _ => { pcix[t] += 1; }
-                        }
+                    while ip[t] < progs[t].len() && siteless(&progs[t][ip[t]], held[t].len()) { ip[t] += 1; }
+                    match progs[t].get(ip[t]) {
+                        Some(Op::Rel(i)) if *i < held[t].len() => { rel_page[t] = held[t].remove(*i); ip[t] += 1; }
+                        _ => { if !held[t].is_empty() { rel_page[t] = held[t].remove(0); } }
                     }
-                    if pcix[t] >= progs[t].len() && !held[t].is_empty() && !matches!(progs[t].last(), Some(Op::Rel(_))) { curpage[t] = held[t].remove(0); }
                 }
-                204 => {
-                    for u in 0..n { if u != t { if let Some((k, ph)) = parked204[u] { if k == curpage[t] && ph == 0 { parked204[u] = Some((k, 1)); } } } }
-                    parked204[t] = Some((curpage[t], 0));
-                }
+                204 => { parked[t] = Some((rel_page[t], false, false)); }
                 _ => {}
             }
         }
